@@ -42,7 +42,7 @@ func runC09(c *Ctx) {
 	c.Rule("C09.R7", "a client stream is removed from its connection's stream table (HTTP/1: its single slot) before its listeners are notified", 3)
 	defer c09UnregisterBeforeNotify(c)
 	defer c09SlotClearedBeforeReceive(c)
-	c.Rule("C09.R9", "the client stream handed out for a new try is new, re-initialised as a whole, or a slot tested unused", 3)
+	c.Rule("C09.R9", "the client stream handed out for a new try is new, or a slot tested unused", 3)
 	defer freshStreamPerTry(c, "C09.R9")
 	c.Rule("C09.R10", "a circuit-breaker counter moves by exactly one per Increase/Decrease (no saturation, no clamping)", 2)
 	defer c10CounterStepExact(c, "C09.R10")
